@@ -47,7 +47,8 @@ fn synth(rng: &mut Rng) -> Synth {
                 let key = format!("fz-{n}").into_bytes();
                 let vlen = *rng.pick(&[1usize, 30, 4000, 4066, 5000, 9000]);
                 let value = rng.bytes(vlen);
-                let ts = 1_700_000_000_000_000_000 + rng.below(1000);
+                // now and then a record carries an extreme version: the largest timestamp, its neighbour, the sign bit
+                let ts = if rng.chance(1, 10) { *rng.pick(&[u64::MAX, u64::MAX - 1, (1u64 << 63) + 1]) } else { 1_700_000_000_000_000_000 + rng.below(1000) };
                 let expiry = if version >= 2 && rng.chance(1, 4) { 4_000_000_000_000_000_000 + rng.below(1000) } else { 0 };
                 let rec = indep::encode_record(version, &key, &value, ts, expiry, sector);
                 let nb = (rec.len() / BLOCK) as u64;
@@ -401,6 +402,22 @@ pub fn child(args: &Args) -> ! {
                         let _ = store.get_size(&e.key);
                         let _ = store.get_ttl(&e.key);
                         calls += 3;
+                    }
+                    // every kind of read-modify-write on a sample of the keys as recovered (extreme timestamps,
+                    // expiries and lengths included): errors are fine, panics are not
+                    for e in snap.entries.iter().take(12) {
+                        let _ = store.update_ttl(&e.key, 100);
+                        let _ = store.persist(&e.key);
+                        let _ = store.get_bytes(&e.key);
+                        let _ = store.contains_key(&e.key);
+                        if let Ok(cur) = store.get(&e.key) {
+                            let _ = store.compare_and_swap(&e.key, &cur, &cur);
+                        }
+                        let _ = store.atomic_increment_with_ttl(&e.key, 1, 5);
+                        let _ = store.insert_if_absent(&e.key, b"probe");
+                        let _ = store.insert_with_ttl(&e.key, b"probe-ttl-value", 7);
+                        let _ = store.delete_with_timestamp(&e.key, Some(e.timestamp));
+                        calls += 9;
                     }
                     let _ = store.range_query(&[], &[0xff; 8], 1000);
                     let _ = store.insert(b"probe-key", b"probe-value-probe-value");
